@@ -256,7 +256,8 @@ class State:
         self.bottom = False
         self.dirty = frozenset()     # places (rooted at parameters) written since function entry
         self.taint = frozenset()     # terms that may hold a not yet bounded magnitude-source value (C03; empty elsewhere)
-        self.lin = {}                # place -> (a, b): the place holds a - b for two 'n' values (a remembered difference, see add_le)
+        self.lin = {}                # place -> (a, b): the place holds a - b for two 'n' values (a remembered difference, see add_le);
+        #                              place -> (a, b, '+'): the place holds a + b (value numbering of sums, see Analyzer.assign_typed)
 
     def copy(self):
         s = State.__new__(State)
@@ -409,11 +410,11 @@ class State:
             # x = p - q (+k) compared with a constant: the bound is one on p - q
             if a[0] == "n" and a[1] is not None and a[1][0] == "v" and b[0] == "n" and b[1] is None:
                 pq = self.lin.get((a[1][1], a[1][2]))
-                if pq is not None:
+                if pq is not None and len(pq) == 2:
                     self.add_le(pq[0], pq[1], c - a[2] + b[2], _lin=False)
             if b[0] == "n" and b[1] is not None and b[1][0] == "v" and a[0] == "n" and a[1] is None:
                 pq = self.lin.get((b[1][1], b[1][2]))
-                if pq is not None:
+                if pq is not None and len(pq) == 2:
                     # a.k - (p - q + b.k) <= c   <=>   q - p <= c + b.k - a.k
                     self.add_le(pq[1], pq[0], c + b[2] - a[2], _lin=False)
         if a[0] == "iv" or b[0] == "iv" or a[0] != "n" or b[0] != "n":
@@ -493,7 +494,7 @@ class State:
         if self.taint:
             self.taint = frozenset(t for t in self.taint if not (hit(term_place(t)) and not keep(t)))
         if self.lin:
-            self.lin = {p: ab for p, ab in self.lin.items() if not hit(p) and not any(x[1] is not None and hit(term_place(x[1])) for x in ab)}
+            self.lin = {p: ab for p, ab in self.lin.items() if not hit(p) and not any(x[1] is not None and hit(term_place(x[1])) for x in ab[:2])}
         for t in [t for t in self.iv if hit(term_place(t)) and not keep(t)]:
             del self.iv[t]
         for k in [k for k in self.rel if any(hit(term_place(t)) and not keep(t) for t in k)]:
@@ -543,7 +544,7 @@ class State:
         if self.taint:
             self.taint = frozenset(t for t in self.taint if not hit(term_place(t)))
         if self.lin:
-            self.lin = {p: ab for p, ab in self.lin.items() if not hit(p) and not any(x[1] is not None and hit(term_place(x[1])) for x in ab)}
+            self.lin = {p: ab for p, ab in self.lin.items() if not hit(p) and not any(x[1] is not None and hit(term_place(x[1])) for x in ab[:2])}
         for t in [t for t in self.iv if hit(term_place(t))]:
             del self.iv[t]
         for k in [k for k in self.rel if any(hit(term_place(t)) for t in k)]:
